@@ -12,6 +12,9 @@ int env_alloc_fail_at = -1; /* which allocation fails */
 int env_alloc_count   = 0;  /* allocations attempted so far */
 int env_alloc_failed  = 0;  /* a failure was injected */
 int env_alloc_live    = 0;  /* live blocks */
+size_t env_alloc_limit    = 0; /* if non-zero: requests above it fail (observed through env_alloc_last_req) */
+size_t env_alloc_last_req = 0;
+size_t env_alloc_last_refused = 0;
 int env_alloc_small_only = 0; /* harness promise (checked): bit0 every nni_alloc, bit1 every nni_zalloc request is <= 24 bytes */
 
 #if VH_NATIVE
@@ -48,6 +51,14 @@ env_do_alloc(size_t sz, int zero)
 	void *p;
 	if (sz == 0) {
 		return NULL;
+	}
+	env_alloc_last_req = sz;
+	if (env_alloc_limit != 0 && sz > env_alloc_limit && (sz > 512 || !zero)) {
+		env_alloc_last_refused = sz;
+		return NULL; /* huge request: observed, refused (keeps object sizes concrete) */
+	}
+	if (env_alloc_limit != 0 && sz > env_alloc_limit && sz <= 512) {
+		/* fall through: structs up to 512 bytes are still served */
 	}
 	if (env_alloc_count++ == env_alloc_fail_at) {
 		env_alloc_failed = 1;
